@@ -60,5 +60,12 @@ for it in range(N):
         with contextlib.redirect_stderr(io.StringIO()): res_ = bt.backtest.benchmark_random(bt.Backtest(mk(), data), rtpl, nsim=2)
         evals += 1
         if rtpl.name != "rnd": fails.append(dict(clause="benchmark_random-renamed-the-caller's-template", name=rtpl.name))
+    if it < 2:
+        # a template used as a dict child under aliases keeps its own name
+        tpl = mk(); comp = bt.Strategy("comp", [bt.algos.RunWeekly(), bt.algos.SelectAll(), bt.algos.WeighEqually(), bt.algos.Rebalance()], children={"sleeve_1": tpl, "sleeve_2": tpl}); evals += 1
+        if tpl.name != "s" or sorted(comp.children) != ["sleeve_1", "sleeve_2"]: fails.append(dict(clause="template-mutated", what="a node given as a dict child was renamed", name=tpl.name))
+        # the frame a backtest runs on is the frame it was given, as it is at construction (also for the same object edited in place in between)
+        dd = data.copy(deep=True); ta = bt.Backtest(mk(), dd); dd.iloc[:, 0] = dd.iloc[:, 0] * 2.0; tb = bt.Backtest(mk(), dd); evals += 1
+        if not np.allclose(tb.data.iloc[1:, 0].to_numpy(), dd.iloc[:, 0].to_numpy()): fails.append(dict(clause="backtest-does-not-run-on-the-frame-it-was-given"))
     if it < 1: samples.append(dict(final_value=float(t1.strategy.value)))
 print("JSON:" + json.dumps(dict(evaluations=evals, distinct=evals, failures=fails[:3], samples=samples, rule="pairs of backtests from one template run in random order; input frame / template compared before and after; re-run compared", bound="%d template pairs, 12 dates, 8 tickers" % N)))
